@@ -7,7 +7,10 @@
 package c20
 
 import (
+	"net/http/httptest"
+
 	"fmt"
+	"github.com/prometheus/common/expfmt"
 	"math"
 	"sort"
 	"strconv"
@@ -406,6 +409,39 @@ func TestC20(t *testing.T) {
 				R.Eval(1)
 				R.Trans(len(exported) + 3)
 				found[ji] = append(found[ji], check("two-instances-one-registry", exported, mfs, err)...)
+			}
+		}
+		// the export as a scraper sees it: the HTTP handler is scraped after every observation (scrapes follow
+		// each other within microseconds); every scrape shows the sums over what was observed by then
+		if len(rs) >= 1 && len(rs) <= 3 {
+			reg := prometheus.NewRegistry()
+			pm := prom.NewMetrics()
+			if err := pm.Register(reg); err == nil {
+				h := prom.NewHandler(reg, time.Unix(0, 0))
+				for i := range rs {
+					pm.Observe(&rs[i])
+					rec := httptest.NewRecorder()
+					h.ServeHTTP(rec, httptest.NewRequest("GET", "/metrics", nil))
+					var tp expfmt.TextParser
+					fams, perr := tp.TextToMetricFamilies(rec.Body)
+					var mfs []*dto.MetricFamily
+					for _, name := range []string{nameLatency, nameBytesIn, nameBytesOut, nameFail} {
+						if mf := fams[name]; mf != nil {
+							mfs = append(mfs, mf)
+						}
+					}
+					R.Eval(1)
+					R.Trans(2)
+					if rec.Code != 200 || perr != nil {
+						found[ji] = append(found[ji], finding{"prom:handler:scrape-fails", map[string]any{"status": rec.Code, "error": fmt.Sprint(perr), "history": describe(rs[:i+1])}})
+						break
+					}
+					fs := check("scrape-after-every-observation", rs[:i+1], mfs, nil)
+					found[ji] = append(found[ji], fs...)
+					if len(fs) > 0 {
+						break
+					}
+				}
 			}
 		}
 		if len(rs) >= 2 {
